@@ -566,6 +566,10 @@ impl FieldType {
                     // A wildcard map and an explicitly keyed one describe
                     // different shapes; neither can become the other.
                     (Some(_), None) | (None, Some(_)) => false,
+                    // An empty map type is the untyped map: it declares nothing
+                    // and accepts every value, so it cannot be narrowed to
+                    // explicit keys without invalidating stored documents.
+                    (None, None) if old_types.is_empty() && !new_types.is_empty() => false,
                     (None, None) => new_types.iter().all(|(k, new_ft)| match old_types.get(k) {
                         Some(old_ft) => new_ft.is_compatible_upgrade_of(old_ft),
                         // Keys only in `old` were removed: tolerated on read.
